@@ -577,6 +577,8 @@ class List(list, base.Symbolic, pg_typing.CustomTyping):
         raise IndexError(
             f'list assignment index out of range. '
             f'Length={len(self)}, index={index}')
+      if index < 0:
+        index += len(self)
       update = self._set_item_without_permission_check(index, value)
       if flags.is_change_notification_enabled() and update:
         self._notify_field_updates([update])
@@ -602,6 +604,8 @@ class List(list, base.Symbolic, pg_typing.CustomTyping):
       raise IndexError(
           f'list index out of range. '
           f'Length={len(self)}, index={index}')
+    if index < 0:
+      index += len(self)
 
     if self._value_spec and self._value_spec.min_size == len(self):
       raise ValueError(
@@ -679,6 +683,8 @@ class List(list, base.Symbolic, pg_typing.CustomTyping):
     if self.max_size is not None and len(self) >= self.max_size:
       raise ValueError(f'List reached its max size {self.max_size}.')
 
+    if index < 0:
+      index = max(0, index + len(self))
     update = self._set_item_without_permission_check(
         index, mark_as_insertion(value))
     self._sync_children()
